@@ -462,7 +462,7 @@ Proof.
     [|assumption].
   assert (Hroot : forall h r, nth_error st h = Some r -> wfb r = true).
   { intros h r Hn. rewrite Forall_forall in HS. apply (HS r). eapply nth_error_In, Hn. }
-  destruct o as [h p f|h p h2 p2|h p key|h p|h p keys|h p k v|h p d].
+  destruct o as [h p f|h p h2 p2|h p key|h p|h p keys|h p k v|h p d|h p h2].
   - eapply upd_root_ok; [|exact HS|exact E].
     intros b n n' Hn Hs. eapply setitem_ok; [exact Hn|apply mk_fresh_wf|exact Hs].
   - destruct (nth_error st h2) as [r2|] eqn:E2; [|discriminate]. cbn [obind] in E.
@@ -482,6 +482,13 @@ Proof.
     eapply select_ok; [|exact Esel]. eapply node_at_wf; [eapply Hroot, E1|exact En].
   - eapply upd_root_ok; [|exact HS|exact E]. intros b n n' Hn Hs. eapply set_attr_ok; eassumption.
   - eapply upd_root_ok; [|exact HS|exact E]. intros b n n' Hn Hs. eapply set_data_ok; eassumption.
+  - destruct (Nat.eqb h h2); [discriminate|].
+    destruct (nth_error st h2) as [src|] eqn:E2; [|discriminate]. cbn [obind] in E.
+    destruct (upd_root st h p (fun n => setitem n (nname src) src)) as [st1|] eqn:E1; [|discriminate].
+    cbn [obind] in E. injection E as <-.
+    apply Forall_set_nth; [|split; reflexivity].
+    eapply upd_root_ok; [|exact HS|exact E1].
+    intros b n n' Hn Hs. eapply setitem_ok; [exact Hn|eapply Hroot, E2|exact Hs].
 Qed.
 
 Theorem run_inv ops : forall st, Forall Inv st -> Forall Inv (run st ops).
@@ -491,10 +498,11 @@ Proof.
 Qed.
 
 (* ---------------------------------------------------------------- separation *)
-Definition op_target (o : op) : option nat :=
+Definition op_targets (o : op) : list nat :=
   match o with
-  | OSet h _ _ | OInsertCopy h _ _ _ | ODel h _ _ | OAttr h _ _ _ | OData h _ _ => Some h
-  | OCopy _ _ | OSelect _ _ _ => None
+  | OSet h _ _ | OInsertCopy h _ _ _ | ODel h _ _ | OAttr h _ _ _ | OData h _ _ => [h]
+  | OCopy _ _ | OSelect _ _ _ => []
+  | OMove h _ h2 => [h; h2]
   end.
 
 Lemma nth_error_set_nth_other {A} i j (x : A) l : i <> j -> nth_error (set_nth i x l) j = nth_error l j.
@@ -503,32 +511,38 @@ Proof.
   apply IH. congruence.
 Qed.
 
-(* an operation changes at most the handle it edits; copies and selections only add a handle *)
+(* an operation changes at most the handles it edits; copies and selections only add a handle *)
 Theorem step_separation st o j r :
-  nth_error st j = Some r -> op_target o <> Some j -> nth_error (step st o) j = Some r.
+  nth_error st j = Some r -> ~ In j (op_targets o) -> nth_error (step st o) j = Some r.
 Proof.
   intros Hj Ht. unfold step.
   match goal with |- nth_error (match ?x with Some _ => _ | None => _ end) j = _ => destruct x as [st'|] eqn:E end;
     [|assumption].
-  assert (Hupd : forall h p f, upd_root st h p f = Some st' -> h <> j -> nth_error st' j = Some r).
-  { intros h p f Hu Hne. unfold upd_root in Hu.
-    destruct (nth_error st h); [|discriminate]. cbn [obind] in Hu.
+  assert (Hupd : forall st0 st1 h p f, nth_error st0 j = Some r -> upd_root st0 h p f = Some st1 -> h <> j ->
+                                       nth_error st1 j = Some r).
+  { intros st0 st1 h p f H0 Hu Hne. unfold upd_root in Hu.
+    destruct (nth_error st0 h); [|discriminate]. cbn [obind] in Hu.
     destruct (update_at p f n); [|discriminate]. injection Hu as <-.
     now rewrite nth_error_set_nth_other. }
   assert (Happ : forall x, nth_error (st ++ [x]) j = Some r).
   { intros x. rewrite nth_error_app1; [assumption|]. apply nth_error_Some. congruence. }
-  destruct o as [h p f|h p h2 p2|h p key|h p|h p keys|h p k v|h p d]; cbn [op_target] in Ht.
-  - eapply Hupd; [exact E|congruence].
+  destruct o as [h p f|h p h2 p2|h p key|h p|h p keys|h p k v|h p d|h p h2]; cbn [op_targets In] in Ht.
+  - eapply Hupd; [exact Hj|exact E|intuition].
   - destruct (nth_error st h2); [|discriminate]. cbn [obind] in E.
-    destruct (node_at p2 n); [|discriminate]. cbn [obind] in E. eapply Hupd; [exact E|congruence].
-  - eapply Hupd; [exact E|congruence].
+    destruct (node_at p2 n); [|discriminate]. cbn [obind] in E. eapply Hupd; [exact Hj|exact E|intuition].
+  - eapply Hupd; [exact Hj|exact E|intuition].
   - destruct (nth_error st h); [|discriminate]. cbn [obind] in E.
     destruct (node_at p n); [|discriminate]. injection E as <-. apply Happ.
   - destruct (nth_error st h); [|discriminate]. cbn [obind] in E.
     destruct (node_at p n); [|discriminate]. cbn [obind] in E.
     destruct (select n0 keys); [|discriminate]. injection E as <-. apply Happ.
-  - eapply Hupd; [exact E|congruence].
-  - eapply Hupd; [exact E|congruence].
+  - eapply Hupd; [exact Hj|exact E|intuition].
+  - eapply Hupd; [exact Hj|exact E|intuition].
+  - destruct (Nat.eqb h h2); [discriminate|].
+    destruct (nth_error st h2) as [src|]; [|discriminate]. cbn [obind] in E.
+    destruct (upd_root st h p (fun n => setitem n (nname src) src)) as [st1|] eqn:E1; [|discriminate].
+    cbn [obind] in E. injection E as <-.
+    rewrite nth_error_set_nth_other by intuition. eapply Hupd; [exact Hj|exact E1|intuition].
 Qed.
 
 (* ---------------------------------------------------------------- lookup by id *)
